@@ -41,6 +41,7 @@ ASSUMPTIONS = [
     "implicit Node/Edge ids (object addresses) are modelled by a fresh-id counter: a newly created object's id differs from the id of every object still referenced (the harness keeps every graph alive while it is compared; a separate derive() run without any keep-alive is compared by position)",
     "both label tables of Graph are modelled: the edge-label table (name clash -> ValueError) and the node-label table (a NodeLabel is its name; the table is the list of names in insertion order)",
     "replace_edge(g, e, g) with the replacement aliasing the host: the code (since /repo 0be4bef) reads the replacement into lists before its first mutation, so the model is replace_edge_model with r := g (replace_edge_self_model); replace_edge_alias_model_old (live dict views of CPython, RuntimeError after the first insertion) is only the record of the fixed finding",
+    "a graph built through a copy / conversion path is observed through nodes(), edges(), ext, edge_labels(), node_labels(); its type is NEVER read from the implementation for the verdict: the model computes it from the external nodes (gtype), and the observed .type / .arity are an output judged by build_check; domains / factors of FactorGraph are not modelled (replace_edge does not read them)",
     "weights: the product theorem is proved for every commutative semiring; the run-time comparison uses non-negative integer weights (exact in float)",
 ]
 
@@ -1064,12 +1065,14 @@ def _run(tier, seed):
                    "host " + ("".join("." + c for c in pc["hconvs"]) or "(none)")):
             path_hist[kk] = path_hist.get(kk, 0) + 1
     t_calls = _time.time()
-    acodes, k5 = run_model(ALIAS, alias_wire, seed=seed, tag="c15a", coq_sample=3)
-    rcodes, k1 = run_model(REPL, [c for c, _ in repl_cases], seed=seed, tag="c15r", coq_sample=8)
-    lcodes, k2 = run_model(LIN, lin_cases, seed=seed, tag="c15l", coq_sample=5)
-    dcodes, k3 = run_model(DER, der_cases, seed=seed, tag="c15d", coq_sample=5)
-    scodes, k4 = run_model(START, start_cases, seed=seed, tag="c15s", coq_sample=3)
-    bcodes, k6 = run_model(BUILD, build_cases, seed=seed, tag="c15b", coq_sample=5)
+    # the six verdict functions are independent processes (extracted driver + a kernel re-evaluation each, in
+    # separate directories build/cases/<tag>): run them side by side; the results do not depend on the schedule
+    from concurrent.futures import ThreadPoolExecutor
+    jobs = [(ALIAS, alias_wire, "c15a", 3), (REPL, [c for c, _ in repl_cases], "c15r", 8), (LIN, lin_cases, "c15l", 5),
+            (DER, der_cases, "c15d", 5), (START, start_cases, "c15s", 3), (BUILD, build_cases, "c15b", 5)]
+    with ThreadPoolExecutor(max_workers=len(jobs)) as pool:
+        futs = [pool.submit(run_model, cf, vals, seed=seed, tag=tag, coq_sample=cs) for cf, vals, tag, cs in jobs]
+        (acodes, k5), (rcodes, k1), (lcodes, k2), (dcodes, k3), (scodes, k4), (bcodes, k6) = [f.result() for f in futs]
     t_model = _time.time()
     exact = [0, 0]
     for c, m, code in zip(start_cases, start_meta, scodes):
@@ -1130,7 +1133,14 @@ def _run(tier, seed):
                     "against derived_graph; derive() likewise plus assignment (total, nothing else, values) and integer weight product, once with and once without keeping objects alive. "
                     "distinct_nontrivial = distinct (grammar rules, tree shape) pairs with >= 2 rule instances. "
                     "Aliasing stream (first): replace_edge(g, e, g), the recorded failing input of the fixed finding first. Single-call stream: wrong type, absent edge, both, repeated external node, label-name clash, attachment node not in nodes(), edge with a stolen id, valid calls on hosts "
-                    "with external nodes, hosts whose explicit ids are the decimal strings of just-freed addresses.",
+                    "with external nodes, hosts whose explicit ids are the decimal strings of just-freed addresses. "
+                    "Path stream: single replace_edge calls whose REPLACEMENT (always) and HOST (every other case) are built through the library's construction / "
+                    "conversion / copy paths: Graph or FactorGraph with .ext assigned before / between / after the edges or twice (other nodes first), then a chain of "
+                    "Graph.copy / FactorGraph.copy, FactorGraph.from_graph, HRGRule.copy, HRG.copy, FGG.from_hrg, FGG.copy, copy.deepcopy, JSON round trip, .ext "
+                    "re-assigned (same value; other value then back) -- 19 chains x 7 bases; right type / wrong type / nullary edge with non-nullary replacement / "
+                    "non-nullary edge with nullary replacement. Every call is judged by replace_check (type = labels of the wire's external nodes); every intermediate "
+                    "graph is observed (.type, .arity, HRGRule(lhs, g) for a right, a wrong and a terminal lhs, content before/after the step, the replacement "
+                    "before/after replace_edge) and judged by build_check (C15_build_check_exact).",
                samples=samples, trees=made, trees_with_reused_rule=reused, trees_all_linearisations=n_exh, trees_sampled_linearisations=n_samp,
                replace_calls=len(repl_cases), linearisations=len(lin_cases), derive_calls=len(der_cases),
                tree_size_histogram=hist_size, linearisations_per_tree_histogram=hist_lin, grammar_features=feats,
@@ -1167,7 +1177,7 @@ def replay(path):
 
 MANIFEST = dict(
     level="proof",
-    text="Coq theorems about a Gallina model that follows fggs.replace_edge / start_graph / FGGDerivation.derive statement by statement (both label tables included): replacement specification and well-formedness preservation (C15_replace_spec), the executable oracles are EXACT deciders of the specifications (C15_replace_ok_exact, C15_same_upto_naming_exact, C15_start_ok_exact), confluence over every linearisation by an invariant (C15_confluence), derive() = the derived graph with an assignment defined exactly on its nodes that is the denotational one, a function of the node name (C15_derive_assignment_exact, C15_derived_asst_nodup), and the weight product in any commutative semiring (C15_derive); node-label table tight along every run (C15_run_node_labels); the aliased call replace_edge(g, e, g) meets the same specification since /repo 0be4bef (C15_replace_self_spec; the old behaviour is kept as replace_edge_alias_model_old with C15_replace_alias_old_never_spec / _refuted, and its failing input is a regression case run first). The model is tied to /repo by running every linearisation (<= 120 per tree) with the implementation and judging each call and each final graph with the extracted verified oracles.",
+    text="Coq theorems about a Gallina model that follows fggs.replace_edge / start_graph / FGGDerivation.derive statement by statement (both label tables included): replacement specification and well-formedness preservation (C15_replace_spec), the executable oracles are EXACT deciders of the specifications (C15_replace_ok_exact, C15_same_upto_naming_exact, C15_start_ok_exact), confluence over every linearisation by an invariant (C15_confluence), derive() = the derived graph with an assignment defined exactly on its nodes that is the denotational one, a function of the node name (C15_derive_assignment_exact, C15_derived_asst_nodup), and the weight product in any commutative semiring (C15_derive); node-label table tight along every run (C15_run_node_labels); the aliased call replace_edge(g, e, g) meets the same specification since /repo 0be4bef (C15_replace_self_spec; the old behaviour is kept as replace_edge_alias_model_old with C15_replace_alias_old_never_spec / _refuted, and its failing input is a regression case run first). Replacement and host graphs are also built through every construction / conversion / copy path of the library (Graph.copy, FactorGraph.from_graph, FactorGraph.copy, rule and grammar copies, FGG.from_hrg, JSON, deepcopy, .ext assigned in any order or twice): the model reads a replacement only through nodes(), edges(), ext (C15_replace_only_reads_content, C15_replace_same_content), a wrong type -- the labels of the external nodes -- is rejected whatever the replacement (C15_replace_wrong_type_rejected), and the observation oracle for .type / .arity / HRGRule(lhs, g) is exact (C15_build_check_exact, C15_build_check_type_rejects, C15_rules_obs_ok_exact). The model is tied to /repo by running every linearisation (<= 120 per tree) with the implementation and judging each call and each final graph with the extracted verified oracles.",
     note="Trusted: Coq kernel + vm_compute, extraction cross-checked against vm_compute, the Python harness that numbers ids/labels and names nodes through the maps replace_edge returns.",
     technique="Coq proof (model + theorems) + model/implementation correspondence with verified-spec oracles (sound and complete)",
     design_ref="DESIGN.md section 6, C15")
